@@ -46,6 +46,40 @@ def make_gw(g):
     return d
 
 
+def frames_for(g, k):
+    """the search responses a gateway like g sends: (plain SearchResponse, SearchResponseExtended or None for a Core-V1 device)"""
+    from xknx.knxip import HPAI, DIBServiceFamily, KNXIPFrame, SearchResponse, SearchResponseExtended
+    from xknx.knxip.dib import DIBDeviceInformation, DIBSecuredServiceFamilies, DIBSuppSVCFamilies
+    from xknx.telegram import IndividualAddress
+
+    F = DIBSuppSVCFamilies.Family
+    info = DIBDeviceInformation()
+    info.individual_address = IndividualAddress(HOST_OK if g["host"] else HOST_OTHER)
+    info.name = f"gw{k}"
+    info.serial_number = "00:01:02:03:04:%02x" % k
+    info.mac_address = "00:01:02:03:04:%02x" % k
+    fam = DIBSuppSVCFamilies()
+    fam.families.append(F(DIBServiceFamily.CORE, g.get("core", 1)))
+    if g["rout"]:
+        fam.families.append(F(DIBServiceFamily.ROUTING, 1))
+    if g["tun"]:
+        fam.families.append(F(DIBServiceFamily.TUNNELING, g["tun"]))
+    ep = HPAI(ip_addr=f"10.0.0.{2 + k}", port=3671)
+    plain = SearchResponse(control_endpoint=ep)
+    plain.dibs = [info, fam]
+    ext = None
+    if g.get("core", 1) >= 2:
+        ext = SearchResponseExtended(control_endpoint=ep)
+        sec = DIBSecuredServiceFamilies()
+        if g["sectun"]:
+            sec.families.append(F(DIBServiceFamily.TUNNELING, 1))
+        if g["secrout"]:
+            sec.families.append(F(DIBServiceFamily.ROUTING, 1))
+        ext.dibs = [info, fam] + ([sec] if (g.get("secdib", 1) or g["sectun"] or g["secrout"]) else [])
+    rt = lambda b: KNXIPFrame.from_knx(KNXIPFrame.init_from_body(b).to_knx())[0]      # as received from the wire
+    return rt(plain), (rt(ext) if ext is not None else None), ep
+
+
 class FakeKeyring:
     """keyring whose only tunnelling interface is hosted by HOST_OK"""
 
@@ -65,8 +99,10 @@ class FakeKeyring:
         return IndividualAddress(HOST_OK)
 
 
-def run_scan(gws, fails, use_keyring):
-    """gws: list of gateway dicts; fails: set of (index) whose connection attempt raises CommunicationError"""
+def run_scan(gws, fails, use_keyring, via_scanner=None, flt=None):
+    """gws: list of gateway dicts; fails: set of (index) whose connection attempt raises CommunicationError
+    via_scanner: None - the scan yields descriptors built from DIBs; otherwise the search responses of each gateway are fed to the real
+    GatewayScanner callback in the order given: "ext_first" | "plain_first" | "ext_lost" (only the plain answer of a Core-V2 device arrives)"""
     from xknx import XKNX
     from xknx.exceptions import CommunicationError
     from xknx.io import ConnectionConfig
@@ -77,9 +113,24 @@ def run_scan(gws, fails, use_keyring):
     cur = {"k": -1}
 
     async def scan(self):
-        for k, d in enumerate(descs):
-            cur["k"] = k
-            yield d
+        if via_scanner is None:
+            for k, d in enumerate(descs):
+                cur["k"] = k
+                yield d
+            return
+        from unittest.mock import Mock  # noqa: PLC0415
+
+        q = asyncio.Queue()
+        tr = Mock()
+        tr.local_addr = ("10.0.0.1", 0)
+        for k, g in enumerate(gws):
+            plain, ext, ep = frames_for(g, k)
+            order = [plain] if ext is None else {"ext_first": [ext, plain], "plain_first": [plain, ext], "ext_lost": [plain]}[via_scanner]
+            for fr in order:
+                self._response_rec_callback(fr, ep, tr, interface="eth0", queue=q)
+            while not q.empty():
+                cur["k"] = k
+                yield q.get_nowait()
 
     def stub(m):
         async def f(*a, **kw):
@@ -90,7 +141,9 @@ def run_scan(gws, fails, use_keyring):
         return f
 
     async def main():
-        xknx = XKNX(connection_config=ConnectionConfig())
+        from xknx.io import GatewayScanFilter  # noqa: PLC0415
+
+        xknx = XKNX(connection_config=ConnectionConfig(scan_filter=GatewayScanFilter(**flt)) if flt else ConnectionConfig())
         iface = xknx.knxip_interface
         with patch("xknx.io.knxip_interface.GatewayScanner.async_scan", scan), \
                 patch.object(KNXIPInterface, "_start_secure_tunnelling_tcp", AsyncMock(side_effect=stub("secure_tcp"))), \
@@ -110,6 +163,16 @@ def run_scan(gws, fails, use_keyring):
         loop.close()
     rec = [{"rout": int(g["rout"]), "tun": g["tun"], "sectun": int(g["sectun"]), "secrout": int(g["secrout"]),
             "host": int(g["host"]) if use_keyring else 1} for g in gws]
+    if via_scanner is not None:
+        # what a scanner may report: a Core-V2 device only through its extended answer (the plain one cannot say what is secured),
+        # a Core-V1 device through its plain answer - which cannot announce secured services
+        rec = [r for r, g in zip(rec, gws) if not (g.get("core", 1) >= 2 and via_scanner == "ext_lost")]
+    if via_scanner is not None:              # the scan filter (default or configured): only matching gateways are reported (the filter itself is judged separately)
+        from xknx.io import GatewayScanFilter  # noqa: PLC0415
+
+        f = GatewayScanFilter(**(flt or {}))
+        keep = [bool(f.match(make_gw(g))) for g in gws if not (via_scanner == "ext_lost" and g.get("core", 1) >= 2)]
+        rec = [r for r, k_ in zip(rec, keep) if k_]
     return {"t": "scan", "gws": rec, "ev": ev}
 
 
@@ -138,14 +201,34 @@ def run(ck):
         gws = [rnd.choice(pool) for _ in range(k)]
         fails = {j for j in range(k) if rnd.random() < 0.5}
         scans.append((gws, fails, rnd.random() < 0.6))
+    # ... and discovered through the real scanner callback from search responses (both answers of a Core-V2 device in either order, the
+    # extended one lost), with the default scan filter and with filters that exclude the secure methods
+    def expressible(g):
+        return g["core"] >= 2 or not (g["sectun"] or g["secrout"])
+
+    FILTERS = [None, {"secure_tunnelling": False, "secure_routing": False}, {"tunnelling": False, "tunnelling_tcp": False, "routing": False},
+               {"secure_tunnelling": False}, {"tunnelling_tcp": False, "secure_routing": False}]
+    for g in [g for g in single if expressible(g)]:
+        for mode in ("ext_first", "plain_first", "ext_lost"):
+            for flt in FILTERS:
+                if flt is None or ck.tier != "quick" or rnd.random() < 0.5:
+                    scans.append(([g], set(), False, mode, flt))
+                    if rnd.random() < 0.3:
+                        scans.append(([g], {0}, False, mode, flt))
+    pool2 = [g for g in pool if expressible(g)]
+    for _ in range(300 if ck.tier == "quick" else 4000):
+        k = rnd.choice([2, 2, 3])
+        gws = [rnd.choice(pool2) for _ in range(k)]
+        scans.append((gws, {j for j in range(k) if rnd.random() < 0.5}, rnd.random() < 0.5, rnd.choice(("ext_first", "plain_first", "ext_lost")), rnd.choice(FILTERS)))
     traces = [run_scan(*s) for s in scans]
     res = tlc.batch(ck, "io/AutoConnect_Trace", traces)
     for idx, info in sorted(res.bad.items()):
-        gws, fails, kr = scans[idx]
+        gws, fails, kr = scans[idx][:3]
         t = traces[idx]
         ck.violation({"gws": t["gws"], "ev": t["ev"]},
                      f"automatic connection not allowed by AutoConnect (event {info}): gateways={t['gws']} events={t['ev']}",
-                     {"kind": "scan", "gws": gws, "fails": sorted(fails), "keyring": kr, "trace": t})
+                     {"kind": "scan", "gws": gws, "fails": sorted(fails), "keyring": kr, "via_scanner": scans[idx][3] if len(scans[idx]) > 3 else None,
+                      "filter": scans[idx][4] if len(scans[idx]) > 4 else None, "trace": t})
     # --- filter exactness
     fcases = []
     for g in single:
